@@ -575,4 +575,27 @@ theorem afoldl_filter (ops : List Op) : ∀ (a : AState),
     · simp [h, astep_touch a op h, ih]
     · simp [h, ih]
 
+/-! ### appending operations to a history -/
+
+theorem liveLog_append (ops ops' : List Op) : liveLog (ops ++ ops') = (ops'.foldl astep (arun ops)).log := by
+  simp only [liveLog, arun, List.foldl_append]
+
+theorem run_add_mro (ops : List Op) (c : Cls) (t : Tier) (w : Bool) (b : Body) :
+    (run (ops ++ [.add c t w b])).mro = (run ops).mro := by
+  rw [(rel_run _).mro_eq, (rel_run _).mro_eq]
+  simp only [arun, List.foldl_append, List.foldl_cons, List.foldl_nil, astep]
+  split <;> rfl
+
+theorem run_remove_mro (ops : List Op) (c : Cls) (id : Nat) : (run (ops ++ [.remove c id])).mro = (run ops).mro := by
+  rw [(rel_run _).mro_eq, (rel_run _).mro_eq]
+  simp only [arun, List.foldl_append, List.foldl_cons, List.foldl_nil, astep]
+
+theorem afoldl_touch (mid : List Op) (hmid : ∀ o ∈ mid, o.isTouch = true) (a : AState) : mid.foldl astep a = a := by
+  induction mid generalizing a with
+  | nil => rfl
+  | cons o mid ih =>
+    simp only [List.foldl_cons]
+    rw [astep_touch a o (hmid o (by simp))]
+    exact ih (fun o ho => hmid o (by simp [ho])) a
+
 end Hooks
